@@ -29,6 +29,7 @@ FAULT_CLASSES = [stubs.InjectedFault, InjectedAttributeError, InjectedIndexError
 class C20(Check):
     pid = 'C20'
     validate = True
+    fork_logging = True       # DEBUG logging on/off is a symbolic input of every path
     anchors = [('src/fast_ticc/main_loop.py', 'fit_stacked_data'), ('src/fast_ticc/front_end.py', 'ticc_labels'),
                ('src/fast_ticc/front_end.py', 'ticc_joint_labels'),
                ('src/fast_ticc/graphical_lasso.py', '_retrieve_optimization_results'),
